@@ -7,6 +7,7 @@ import pipeline as pl
 
 ID = "C06"
 LEAN_MODULES = ["QtyModel.Props.C06"]
+HARNESS_GROUPS = ()
 RULE = ("all ordered pairs of the 14 catalogue quantity types and the dimensionless amount x operators + - * / == < "
         "(1350 programs) in both back-ends, and the astronomical crate's types (150 programs, f64): rustc's verdict per "
         "program (accepted with the ascribed result type / rejected at that line) compared with the specification relation "
